@@ -117,6 +117,18 @@ impl Default for Watchdog {
     }
 }
 
+/// The quiescence window is scaled with the load of the machine (1 min load average per core,
+/// clamped to 1..6): on an oversubscribed box TCP connects back off and threads starve for seconds,
+/// which must not look like a deadlock.
+fn load_factor() -> f64 {
+    let cores = std::thread::available_parallelism().map(|n| n.get()).unwrap_or(1) as f64;
+    std::fs::read_to_string("/proc/loadavg")
+        .ok()
+        .and_then(|s| s.split_whitespace().next().and_then(|x| x.parse::<f64>().ok()))
+        .map(|l| (l / cores).clamp(1.0, 6.0))
+        .unwrap_or(1.0)
+}
+
 fn cpu_ticks() -> u64 {
     std::fs::read_to_string("/proc/self/stat")
         .ok()
@@ -170,6 +182,10 @@ pub fn run_job<R: Send + 'static>(
     drop(tx);
 
     let start = Instant::now();
+    let wd = Watchdog {
+        quiescence: wd.quiescence.mul_f64(load_factor()),
+        budget: wd.budget.mul_f64(load_factor()),
+    };
     let mut results: Vec<Option<HostOutcome<R>>> = (0..n).map(|_| None).collect();
     let mut got = 0;
     let mut last_events = ctx.events.load(Ordering::Relaxed);
